@@ -11,6 +11,8 @@ import (
 	"k8s.io/apimachinery/pkg/runtime/schema"
 	"sigs.k8s.io/controller-runtime/pkg/client"
 	gatewayv1 "sigs.k8s.io/gateway-api/apis/v1"
+	gatewayv1alpha2 "sigs.k8s.io/gateway-api/apis/v1alpha2"
+	gatewayv1beta1 "sigs.k8s.io/gateway-api/apis/v1beta1"
 
 	"github.com/jcmoraisjr/haproxy-ingress/pkg/controller/config"
 	nd "github.com/jcmoraisjr/haproxy-ingress/pkg/zzverifnd"
@@ -18,6 +20,7 @@ import (
 
 type zzGwClient struct {
 	client.Client
+	reads []string // api version of every object asked for
 	gwFound    bool
 	gwErr      bool
 	classFound bool
@@ -26,8 +29,32 @@ type zzGwClient struct {
 }
 
 func (c *zzGwClient) Get(ctx context.Context, key client.ObjectKey, obj client.Object, opts ...client.GetOption) error {
+	// the three API versions share the v1 layout
+	var gw *gatewayv1.Gateway
+	var cls *gatewayv1.GatewayClass
 	switch o := obj.(type) {
 	case *gatewayv1.Gateway:
+		gw = o
+		c.reads = append(c.reads, "v1")
+	case *gatewayv1beta1.Gateway:
+		gw = (*gatewayv1.Gateway)(o)
+		c.reads = append(c.reads, "v1beta1")
+	case *gatewayv1alpha2.Gateway:
+		gw = (*gatewayv1.Gateway)(o)
+		c.reads = append(c.reads, "v1alpha2")
+	case *gatewayv1.GatewayClass:
+		cls = o
+		c.reads = append(c.reads, "v1")
+	case *gatewayv1beta1.GatewayClass:
+		cls = (*gatewayv1.GatewayClass)(o)
+		c.reads = append(c.reads, "v1beta1")
+	case *gatewayv1alpha2.GatewayClass:
+		cls = (*gatewayv1.GatewayClass)(o)
+		c.reads = append(c.reads, "v1alpha2")
+	}
+	switch {
+	case gw != nil:
+		o := gw
 		if c.gwErr {
 			return errors.New("transient")
 		}
@@ -37,7 +64,8 @@ func (c *zzGwClient) Get(ctx context.Context, key client.ObjectKey, obj client.O
 		o.Namespace, o.Name = key.Namespace, key.Name
 		o.Spec.GatewayClassName = "cls"
 		return nil
-	case *gatewayv1.GatewayClass:
+	case cls != nil:
+		o := cls
 		if c.classErr {
 			return errors.New("transient")
 		}
@@ -57,16 +85,46 @@ func VerifC10_GatewayClass() {
 		classFound: nd.Bool("class.found"), classErr: nd.Bool("class.err"),
 		controller: []string{"", "k", "z"}[nd.Choice("class.controller", 3)],
 	}
-	hasV1 := nd.Bool("hasGatewayV1")
-	cache := createCacheFacade(context.Background(), cl, &config.Config{ControllerName: "k", HasGatewayV1: hasV1}, nil, nil, nil, nil)
-	gw, err := cache.GetGateway("gwns", "gw")
-	ours := hasV1 && !cl.gwErr && cl.gwFound && !cl.classErr && cl.classFound && cl.controller == "k"
-	if err == nil && gw != nil {
+	has := [3]bool{nd.Bool("hasGatewayV1"), nd.Bool("hasGatewayB1"), nd.Bool("hasGatewayA2")}
+	cache := createCacheFacade(context.Background(), cl, &config.Config{ControllerName: "k", HasGatewayV1: has[0], HasGatewayB1: has[1], HasGatewayA2: has[2]}, nil, nil, nil, nil)
+	api := nd.Choice("api", 3)
+	var found bool
+	var name string
+	var err error
+	switch api {
+	case 0:
+		gw, e := cache.GetGateway("gwns", "gw")
+		found, err = gw != nil, e
+		if gw != nil {
+			name = gw.Name
+		}
+	case 1:
+		gw, e := cache.GetGatewayB1("gwns", "gw")
+		found, err = gw != nil, e
+		if gw != nil {
+			name = gw.Name
+		}
+	case 2:
+		gw, e := cache.GetGatewayA2("gwns", "gw")
+		found, err = gw != nil, e
+		if gw != nil {
+			name = gw.Name
+		}
+	}
+	ours := has[api] && !cl.gwErr && cl.gwFound && !cl.classErr && cl.classFound && cl.controller == "k"
+	if err == nil && found {
 		nd.Assert(ours, "only-own-class-gateways-are-returned")
 		nd.Reach("returned")
 	}
 	if ours {
-		nd.Assert(err == nil && gw != nil && gw.Name == "gw", "own-class-gateway-is-returned")
+		nd.Assert(err == nil && found && name == "gw", "own-class-gateway-is-returned")
+	}
+	// a getter of one API version reads that version only, and nothing when it is disabled
+	for _, r := range cl.reads {
+		nd.Assert(r == []string{"v1", "v1beta1", "v1alpha2"}[api], "reads-its-own-api-version")
+	}
+	if !has[api] {
+		nd.Assert(len(cl.reads) == 0 && err != nil, "disabled-api-version-reads-nothing")
 	}
 	nd.Reach("end")
 }
